@@ -7,6 +7,7 @@
   consume exactly the bytes of the encoding — for all values, all paddings, whatever follows in the buffer.
 -/
 import W2c2Verif.Lemmas.Leb
+import W2c2Verif.Lemmas.ReaderDispatch
 
 namespace W2c2Verif.Props.C08
 open W2c2Verif.Model.Leb W2c2Verif.Spec.Binary W2c2Verif.Lemmas.Leb
@@ -131,5 +132,489 @@ example : SLeb 32 (-1) [0xFF, 0xFF, 0xFF, 0xFF, 0x7F] :=
       (SLeb.more (m := -1) 0xFF (by decide) (by decide)
         (SLeb.more (m := -1) 0xFF (by decide) (by decide)
           (SLeb.neg (N := 4) 0x7F (by decide) (by decide) (by decide) (by decide)))))
+
+end W2c2Verif.Props.C08
+
+/-! ## Part 2 — the section layer of reader.c (`Model.Reader`)
+
+`Sim m m'` = equal except for `RawModule.length` (the file length) and `RawModule.debugSections` (the
+`.debug_*` custom sections, consulted under `-g` only). -/
+
+namespace W2c2Verif.Props.C08
+open W2c2Verif.Model W2c2Verif.Model.Reader W2c2Verif.Spec.Binary W2c2Verif.Lemmas.Reader
+open W2c2Verif.Gen
+
+theorem readEqual_magic (bs : List UInt8) :
+    readEqual Reader.magic E.invalidMagic (Reader.magic ++ bs) = .ok ((), bs) := by
+  unfold readEqual
+  have hl : ¬ (Reader.magic ++ bs).length < Reader.magic.length := by rw [List.length_append]; omega
+  rw [if_neg hl, List.take_left' rfl, if_pos rfl, List.drop_left' rfl]
+
+theorem read_magic (cfg : Cfg) (bs : List UInt8) :
+    Model.Reader.read cfg (Reader.magic ++ bs) = readSections cfg bs (RawModule.empty (Reader.magic ++ bs).length) := by
+  unfold Model.Reader.read
+  rw [readEqual_magic]
+
+/-- **sections_framing_invariant**: take two files that contain the same sequence of non-custom sections
+    `(id, payload)`.  Custom sections — any number, any names and contents, at any section boundary, including
+    before the first and after the last section — and the padding of every section-size and name-length field
+    may differ arbitrarily.  If the reader accepts both files, it decodes the same module (up to the file length
+    and the recorded `.debug_*` sections).  Under `-g` the statement excludes custom sections called `name`,
+    which the reader then parses. -/
+theorem sections_framing_invariant (cfg : Cfg) (items₁ items₂ : List Item) (bs₁ bs₂ : List UInt8)
+    (e₁ : EncStream items₁ bs₁) (e₂ : EncStream items₂ bs₂) (hv : view items₁ = view items₂)
+    (hc₁ : ∀ nm ∈ customNames items₁, ¬ (cfg.debug = true ∧ cstr nm = strBytes Reader.nameSectionName))
+    (hc₂ : ∀ nm ∈ customNames items₂, ¬ (cfg.debug = true ∧ cstr nm = strBytes Reader.nameSectionName))
+    (r₁ r₂ : RawModule)
+    (h₁ : Model.Reader.read cfg (Reader.magic ++ bs₁) = .ok r₁) (h₂ : Model.Reader.read cfg (Reader.magic ++ bs₂) = .ok r₂) :
+    Sim r₁ r₂ := by
+  rw [read_magic] at h₁ h₂
+  refine readSections_framing cfg _ items₁ items₂ bs₁ bs₂ _ _ r₁ r₂ (Nat.le_refl _) e₁ e₂ hv hc₁ hc₂
+    ⟨_, _, rfl⟩ ?_ ?_ h₁ h₂
+  · show bs₁.length ≤ (Reader.magic ++ bs₁).length
+    rw [List.length_append]; omega
+  · show bs₂.length ≤ (Reader.magic ++ bs₂).length
+    rw [List.length_append]; omega
+
+/-- Without `-g` no custom section is interpreted: no side condition. -/
+theorem sections_framing_invariant_no_debug (strict : Bool) (items₁ items₂ : List Item) (bs₁ bs₂ : List UInt8)
+    (e₁ : EncStream items₁ bs₁) (e₂ : EncStream items₂ bs₂) (hv : view items₁ = view items₂) (r₁ r₂ : RawModule)
+    (h₁ : Model.Reader.read ⟨false, strict⟩ (Reader.magic ++ bs₁) = .ok r₁)
+    (h₂ : Model.Reader.read ⟨false, strict⟩ (Reader.magic ++ bs₂) = .ok r₂) : Sim r₁ r₂ :=
+  sections_framing_invariant _ items₁ items₂ bs₁ bs₂ e₁ e₂ hv (fun _ _ h => by simp at h) (fun _ _ h => by simp at h)
+    r₁ r₂ h₁ h₂
+
+/-- A custom section (not a name section under `-g`) at any position is consumed exactly and leaves the module
+    unchanged up to the list of debug sections. -/
+theorem custom_section_skipped (cfg : Cfg) (m : RawModule) {nm content b : List UInt8} (rest : List UInt8)
+    (henc : EncItem (.custom nm content) b)
+    (hno : ¬ (cfg.debug = true ∧ cstr nm = strBytes Reader.nameSectionName)) :
+    ∃ m', readSection cfg m (b ++ rest) = .ok (m', rest) ∧ Sim m m' :=
+  readSection_custom cfg m rest henc hno
+
+/-! ### absent optional sections mean empty -/
+
+/-- **absent_is_empty**: the module the loop starts from (`calloc`) has every vector empty and no start
+    function, and a file with no sections at all decodes to it. -/
+theorem absent_is_empty (cfg : Cfg) :
+    Model.Reader.read cfg Reader.magic = .ok (RawModule.empty 8) ∧
+    (RawModule.empty 8).types = [] ∧ (RawModule.empty 8).functions = [] ∧ (RawModule.empty 8).exports = [] ∧
+    (RawModule.empty 8).globals = [] ∧ (RawModule.empty 8).funcImports = [] ∧ (RawModule.empty 8).globalImports = [] ∧
+    (RawModule.empty 8).memImports = [] ∧ (RawModule.empty 8).tableImports = [] ∧ (RawModule.empty 8).memories = [] ∧
+    (RawModule.empty 8).tables = [] ∧ (RawModule.empty 8).datas = [] ∧ (RawModule.empty 8).elems = [] ∧
+    (RawModule.empty 8).start = none := by
+  refine ⟨?_, rfl, rfl, rfl, rfl, rfl, rfl, rfl, rfl, rfl, rfl, rfl, rfl, rfl⟩
+  have h := read_magic cfg []
+  rw [List.append_nil] at h
+  rw [h, readSections_nil]; rfl
+
+/-- The fields a section reader may change, reset to their initial value. -/
+def eraseOwn (rd : String) (m : RawModule) : RawModule :=
+  match rd with
+  | "wasmReadCustomSection" => { m with debugSections := [], funcNames := [], funcNamesLen := 0 }
+  | "wasmReadTypeSection" => { m with types := [] }
+  | "wasmReadImportSection" => { m with funcImports := [], globalImports := [], memImports := [], tableImports := [] }
+  | "wasmReadFunctionSection" => { m with functions := [] }
+  | "wasmReadTableSection" => { m with tables := [] }
+  | "wasmReadMemorySection" => { m with memories := [] }
+  | "wasmReadGlobalSection" => { m with globals := [] }
+  | "wasmReadExportSection" => { m with functions := [], exports := [] }
+  | "wasmReadStartSection" => { m with start := none }
+  | "wasmReadElementSection" => { m with elems := [] }
+  | "wasmReadCodeSection" => { m with functions := [] }
+  | "wasmReadDataSection" => { m with datas := [] }
+  | _ => m
+
+theorem importEntry_footprint (m : RawModule) :
+    OkInv (fun m' => eraseOwn "wasmReadImportSection" m' = eraseOwn "wasmReadImportSection" m) (importEntry m) := by
+  unfold importEntry
+  refine ok_bind fun mod => ok_bind fun nm => ok_bind fun k => ok_ite (fun _ => ok_fail _) fun _ => ?_
+  split
+  · exact ok_bind fun _ => ok_pure rfl
+  · exact ok_bind fun _ => ok_pure rfl
+  · exact ok_bind fun _ => ok_pure rfl
+  · exact ok_bind fun _ => ok_pure rfl
+  · exact ok_fail _
+
+theorem nameSectionLoop_footprint (endRem : Int) : ∀ fuel (m : RawModule),
+    OkInv (fun m' => eraseOwn "wasmReadCustomSection" m' = eraseOwn "wasmReadCustomSection" m) (nameSectionLoop endRem fuel m) := by
+  intro fuel
+  induction fuel with
+  | zero => intro m; exact ok_pure rfl
+  | succ n ih =>
+    intro m bs m' rest h
+    unfold nameSectionLoop at h
+    split at h
+    · cases h; rfl
+    · revert h
+      refine (ok_bind (I := fun x => eraseOwn "wasmReadCustomSection" x = eraseOwn "wasmReadCustomSection" m) fun id =>
+        ok_bind fun size => ok_bind_inv
+          (I := fun x => eraseOwn "wasmReadCustomSection" x = eraseOwn "wasmReadCustomSection" m)
+          (J := fun x => eraseOwn "wasmReadCustomSection" x = eraseOwn "wasmReadCustomSection" m) ?_ ?_) bs m' rest
+      · refine ok_ite (fun _ => ?_) fun _ => ok_bind fun _ => ok_pure rfl
+        unfold functionNamesSubsection
+        refine ok_bind fun n => ok_ite (fun _ => ok_undefined _) fun _ => ok_bind fun names => ?_
+        split
+        · exact ok_pure rfl
+        · exact ok_fail _
+        · exact ok_undefined _
+      · intro a ha; rw [← ha]; exact ih a
+
+/-- **section_footprint** (the other half of "absent means empty"): the reader of a section changes only the
+    fields that section owns; every other field keeps the value it had — initially the empty vector. -/
+theorem section_footprint (cfg : Cfg) (rd : String) (size : Nat) (m : RawModule) :
+    OkInv (fun m' => eraseOwn rd m' = eraseOwn rd m) (sectionReader cfg rd size m) := by
+  unfold sectionReader
+  split
+  · unfold customSection
+    refine ok_bind fun before => ok_bind fun nm => ok_bind fun after => ok_ite (fun _ => ?_) fun _ => ok_ite (fun _ => ?_) fun _ => ?_
+    · exact ok_bind fun rem => ok_bind fun _ => ok_pure rfl
+    · intro bs m' rest h; exact nameSectionLoop_footprint _ _ m bs m' rest h
+    · exact ok_bind fun _ => ok_pure rfl
+  · unfold typeSection; exact ok_bind fun n => ok_bind fun ts => ok_pure rfl
+  · unfold importSection
+    exact ok_bind fun n => ok_iter (I := fun x => eraseOwn "wasmReadImportSection" x = eraseOwn "wasmReadImportSection" m)
+      (fun s hs => by rw [← hs]; exact importEntry_footprint s) n m rfl
+  · unfold functionSection; exact ok_bind fun n => ok_bind fun ts => ok_pure rfl
+  · unfold tableSection; exact ok_bind fun n => ok_bind fun ts => ok_pure rfl
+  · unfold memorySection; exact ok_bind fun n => ok_bind fun ts => ok_pure rfl
+  · unfold globalSection; exact ok_bind fun n => ok_bind fun ts => ok_pure rfl
+  · unfold exportSection; exact ok_bind fun n => ok_bind fun ts => ok_pure rfl
+  · unfold startSection; exact ok_bind fun n => ok_pure rfl
+  · unfold elementSection; exact ok_bind fun n => ok_bind fun ts => ok_pure rfl
+  · unfold codeSection
+    exact ok_bind fun rem => ok_bind fun n => ok_ite (fun _ => ok_fail _) fun _ => ok_bind fun fs => ok_pure rfl
+  · unfold dataSection; exact ok_bind fun n => ok_bind fun ts => ok_pure rfl
+  · unfold dataCountSection; exact ok_bind fun n => ok_pure rfl
+  · exact ok_fail _
+
+/-! ### an empty vector section equals an omitted one -/
+
+theorem vec_zero {α : Type} (p : P α) (bs : List UInt8) : vec p 0 bs = .ok ([], bs) := rfl
+
+/-- **empty_vs_omitted_section**: a section whose payload is the vector count 0 (in any padding) is consumed
+    exactly and sets its vector to empty — on a module in which that vector is still empty (the section was
+    omitted so far) the module is unchanged.  Covers type, function, table, memory, global, element and data
+    sections. -/
+theorem empty_vs_omitted_section (cfg : Cfg) (m : RawModule) {sz : List UInt8} (h0 : ULeb 32 0 sz) (rest : List UInt8) :
+    typeSection m (sz ++ rest) = .ok ({ m with types := [] }, rest) ∧
+    functionSection m (sz ++ rest) = .ok ({ m with functions := [] }, rest) ∧
+    tableSection m (sz ++ rest) = .ok ({ m with tables := [] }, rest) ∧
+    memorySection m (sz ++ rest) = .ok ({ m with memories := [] }, rest) ∧
+    globalSection cfg m (sz ++ rest) = .ok ({ m with globals := [] }, rest) ∧
+    elementSection cfg m (sz ++ rest) = .ok ({ m with elems := [] }, rest) ∧
+    dataSection cfg m (sz ++ rest) = .ok ({ m with datas := [] }, rest) := by
+  refine ⟨?_, ?_, ?_, ?_, ?_, ?_, ?_⟩
+  · unfold typeSection; rw [bind_eq_of_ok (u32_uleb _ h0 rest), bind_eq_of_ok (vec_zero _ rest)]; rfl
+  · unfold functionSection; rw [bind_eq_of_ok (u32_uleb _ h0 rest), bind_eq_of_ok (vec_zero _ rest)]; rfl
+  · unfold tableSection; rw [bind_eq_of_ok (u32_uleb _ h0 rest), bind_eq_of_ok (vec_zero _ rest)]; rfl
+  · unfold memorySection; rw [bind_eq_of_ok (u32_uleb _ h0 rest), bind_eq_of_ok (vec_zero _ rest)]; rfl
+  · unfold globalSection; rw [bind_eq_of_ok (u32_uleb _ h0 rest), bind_eq_of_ok (vec_zero _ rest)]; rfl
+  · unfold elementSection; rw [bind_eq_of_ok (u32_uleb _ h0 rest), bind_eq_of_ok (vec_zero _ rest)]; rfl
+  · unfold dataSection; rw [bind_eq_of_ok (u32_uleb _ h0 rest), bind_eq_of_ok (vec_zero _ rest)]; rfl
+
+/-- On a module whose vector is still empty, the empty section is a no-op (so "empty" = "omitted"). -/
+theorem empty_section_noop (m : RawModule) (hm : m.types = []) {sz : List UInt8} (h0 : ULeb 32 0 sz) (rest : List UInt8) :
+    typeSection m (sz ++ rest) = .ok (m, rest) := by
+  rw [(empty_vs_omitted_section ⟨false, false⟩ m h0 rest).1]
+  cases m; simp_all
+
+/-! ### data segments: flag 0 and flag 2 with memory index 0 -/
+
+theorem uleb_zero_byte : ULeb 32 0 [0] := ULeb.last (N := 32) 0 (by decide) (by decide) (by decide)
+
+set_option maxRecDepth 100000 in
+theorem uleb_two_byte : ULeb 32 2 [2] := ULeb.last (N := 32) 2 (by decide) (by decide) (by decide)
+
+/-- what follows the flag (and the memory index) of an active data segment for memory `mi` -/
+def activeDataTail (cfg : Cfg) (mi : Nat) : P DataSegment :=
+  sliced (constExpr cfg E.invalidDataSectionOffsetExpression) >>= fun off =>
+    bytesVec E.invalidDataSectionBytes >>= fun bs =>
+      pure { memoryIndex := mi, offset := off, bytes := bs, passive := false }
+
+theorem dataEntry_flag0 (cfg : Cfg) (X : List UInt8) : dataEntry cfg ([0] ++ X) = activeDataTail cfg 0 X := by
+  unfold dataEntry
+  rw [bind_eq_of_ok (u32_uleb _ uleb_zero_byte X)]
+  have h0 : Reader.dataKinds.find? (fun r => r.1 = 0) = some (0, false, true, false) := by decide
+  rw [h0]
+  rfl
+
+theorem dataEntry_flag2 (cfg : Cfg) {mi : List UInt8} (hmi : ULeb 32 0 mi) (X : List UInt8) :
+    dataEntry cfg ([2] ++ (mi ++ X)) = activeDataTail cfg 0 X := by
+  unfold dataEntry
+  rw [bind_eq_of_ok (u32_uleb _ uleb_two_byte (mi ++ X))]
+  have h2 : Reader.dataKinds.find? (fun r => r.1 = 2) = some (2, true, true, false) := by decide
+  rw [h2]
+  show (u32 E.invalidDataSectionMemoryIndex >>= _) (mi ++ X) = _
+  rw [bind_eq_of_ok (u32_uleb _ hmi X)]
+  rfl
+
+/-- **data_segment_flag0_eq_flag2mem0**: an active data segment written with flag 0 and the same segment
+    written with flag 2 and an explicit memory index 0 (in any padding) decode to the same `WasmDataSegment`
+    (memory index 0, same offset expression bytes, same data bytes, not passive); neither is treated as passive. -/
+theorem data_segment_flag0_eq_flag2mem0 (cfg : Cfg) {mi : List UInt8} (hmi : ULeb 32 0 mi) (X : List UInt8) :
+    dataEntry cfg ([2] ++ (mi ++ X)) = dataEntry cfg ([0] ++ X) := by
+  rw [dataEntry_flag0, dataEntry_flag2 cfg hmi]
+
+end W2c2Verif.Props.C08
+
+/-! ## Part 3 — `read_encode_roundtrip_partial`: every spec encoding of a section payload is accepted and
+decoded to the section's abstract content, whatever follows it in the file.
+
+Covered: type, function, table, memory, start and data-count sections (vector counts, indices and limits in any
+LEB padding).  NOT yet covered: import, global, export, element, code, data sections and the custom/name
+sections (their readers are covered by the `reader-dump` correspondence and by `sections_framing_invariant`). -/
+
+namespace W2c2Verif.Props.C08
+open W2c2Verif.Model W2c2Verif.Model.Reader W2c2Verif.Spec.Binary W2c2Verif.Lemmas.Reader
+open W2c2Verif.Gen
+
+def absVT : VT → ValType
+  | .i32 => .i32 | .i64 => .i64 | .f32 => .f32 | .f64 => .f64
+
+def absFuncTy (ft : FuncTy) : FuncType := { params := ft.params.map absVT, results := ft.results.map absVT }
+
+/-- what `wasmReadMemoryType` stores: no maximum or one above 65535 pages becomes 65535 -/
+def absMemLimits : Lim → Limits
+  | .noMax n => { min := n, max := Reader.memoryDefaultMax, shared := false }
+  | .withMax n m => { min := n, max := if Reader.memoryDefaultMax < m then Reader.memoryDefaultMax else m, shared := false }
+  | .shared n m => { min := n, max := if Reader.memoryDefaultMax < m then Reader.memoryDefaultMax else m, shared := true }
+
+/-- what `wasmReadTableType` stores: no maximum becomes `UINT32_MAX` -/
+def absTableLimits : Lim → Limits
+  | .noMax n => { min := n, max := Reader.tableDefaultMax, shared := false }
+  | .withMax n m => { min := n, max := m, shared := false }
+  | .shared n m => { min := n, max := m, shared := true }
+
+/-- generic vector lemma: if each element encoding is read back, so is the sequence -/
+theorem vec_enc {α β : Type} {E : α → List UInt8 → Prop} {p : P β} {f : α → β}
+    (hp : ∀ a b rest, E a b → p (b ++ rest) = .ok (f a, rest)) :
+    ∀ {as : List α} {body : List UInt8}, EncSeq E as body → ∀ rest, vec p as.length (body ++ rest) = .ok (as.map f, rest) := by
+  intro as body h
+  induction h with
+  | nil => intro rest; rfl
+  | @cons a as b bs ha _ ih =>
+    intro rest
+    show (p >>= fun x => vec p as.length >>= fun xs => pure (x :: xs)) ((b ++ bs) ++ rest) = _
+    rw [List.append_assoc, bind_eq_of_ok (hp a b (bs ++ rest) ha), bind_eq_of_ok (ih rest)]
+    rfl
+
+set_option maxRecDepth 100000 in
+theorem i32_valtype_byte (e : Nat) (t : VT) (rest : List UInt8) :
+    ∃ c : Int, i32 e ([t.byte] ++ rest) = .ok (c, rest) ∧ decodeValueType c = some (absVT t) := by
+  have key : ∀ (b : UInt8) (v : Int), SLeb 32 v [b] → i32 e ([b] ++ rest) = .ok (v, rest) := by
+    intro b v h
+    have hr := leb_s_decode_32 v [b] rest h
+    rw [i32_run, hr]
+    exact if_neg (by simp)
+  cases t
+  · exact ⟨-1, key 0x7F (-1) (SLeb.neg (N := 32) 0x7F (by decide) (by decide) (by decide) (by decide)), by decide⟩
+  · exact ⟨-2, key 0x7E (-2) (SLeb.neg (N := 32) 0x7E (by decide) (by decide) (by decide) (by decide)), by decide⟩
+  · exact ⟨-3, key 0x7D (-3) (SLeb.neg (N := 32) 0x7D (by decide) (by decide) (by decide) (by decide)), by decide⟩
+  · exact ⟨-4, key 0x7C (-4) (SLeb.neg (N := 32) 0x7C (by decide) (by decide) (by decide) (by decide)), by decide⟩
+
+theorem valueType_enc (e : Nat) (t : VT) (b rest : List UInt8) (h : EncValType t b) :
+    valueType e (b ++ rest) = .ok (absVT t, rest) := by
+  rw [h]
+  obtain ⟨c, hc, hd⟩ := i32_valtype_byte e t rest
+  unfold valueType
+  rw [bind_eq_of_ok hc, hd]
+  rfl
+
+theorem valueTypes_enc (e : Nat) {ts : List VT} {b : List UInt8} (h : EncVector EncValType ts b) (rest : List UInt8)
+    (ecount : Nat) :
+    (u32 ecount >>= fun n => vec (valueType e) n) (b ++ rest) = .ok (ts.map absVT, rest) := by
+  cases h with
+  | @mk c body hc hb =>
+    rw [List.append_assoc, bind_eq_of_ok (u32_uleb _ hc (body ++ rest))]
+    exact vec_enc (fun a b rest h => valueType_enc e a b rest h) hb rest
+
+theorem functionType_enc (ft : FuncTy) (b rest : List UInt8) (h : EncFuncType ft b) :
+    functionType (b ++ rest) = .ok (absFuncTy ft, rest) := by
+  cases h with
+  | @mk p r hp hr =>
+    unfold functionType
+    have hb : byte E.invalidFunctionTypeIndicator ((0x60 :: (p ++ r)) ++ rest) = .ok (0x60, p ++ (r ++ rest)) := by
+      simp [byte, List.append_assoc]
+    rw [bind_eq_of_ok hb, ite_run, if_neg (by decide)]
+    cases hp with
+    | @mk c1 body1 hc1 hb1 =>
+    cases hr with
+    | @mk c2 body2 hc2 hb2 =>
+      rw [List.append_assoc, bind_eq_of_ok (u32_uleb _ hc1 _),
+        bind_eq_of_ok (vec_enc (fun a b rest h => valueType_enc _ a b rest h) hb1 _),
+        List.append_assoc, bind_eq_of_ok (u32_uleb _ hc2 _),
+        bind_eq_of_ok (vec_enc (fun a b rest h => valueType_enc _ a b rest h) hb2 _)]
+      rfl
+
+/-- type section -/
+theorem typeSection_roundtrip (m : RawModule) (tys : List FuncTy) (payload rest : List UInt8)
+    (h : EncVector EncFuncType tys payload) :
+    typeSection m (payload ++ rest) = .ok ({ m with types := tys.map absFuncTy }, rest) := by
+  cases h with
+  | @mk c body hc hb =>
+    unfold typeSection
+    rw [List.append_assoc, bind_eq_of_ok (u32_uleb _ hc _),
+      bind_eq_of_ok (vec_enc (fun a b rest h => functionType_enc a b rest h) hb rest)]
+    rfl
+
+/-- function section (type indices of a valid module are below the number of types) -/
+theorem functionSection_roundtrip (m : RawModule) (idxs : List Nat) (payload rest : List UInt8)
+    (h : EncVector (fun (i : { i : Nat // i < m.types.length }) b => ULeb 32 i.1 b) (idxs.attach.filterMap fun i =>
+      if hi : i.1 < m.types.length then some ⟨i.1, hi⟩ else none) payload)
+    (hvalid : ∀ i ∈ idxs, i < m.types.length) :
+    functionSection m (payload ++ rest) = .ok ({ m with functions := idxs.map Function.empty }, rest) := by
+  cases h with
+  | @mk c body hc hb =>
+    unfold functionSection
+    rw [List.append_assoc, bind_eq_of_ok (u32_uleb _ hc _)]
+    have hentry : ∀ (a : { i : Nat // i < m.types.length }) (b rest : List UInt8), ULeb 32 a.1 b →
+        functionEntry m.types.length (b ++ rest) = .ok (Function.empty a.1, rest) := by
+      intro a b rest hb
+      unfold functionEntry
+      rw [bind_eq_of_ok (u32_uleb _ hb rest), ite_run, if_neg (by have := a.2; omega)]
+      rfl
+    rw [bind_eq_of_ok (vec_enc (f := fun a => Function.empty a.1) hentry hb rest)]
+    have hmap : (idxs.attach.filterMap fun i => if hi : i.1 < m.types.length then some (⟨i.1, hi⟩ : { i : Nat // i < m.types.length }) else none).map
+        (fun a => Function.empty a.1) = idxs.map Function.empty := by
+      clear hc hb hentry
+      induction idxs with
+      | nil => rfl
+      | cons i t ih =>
+        have hi : i < m.types.length := hvalid i (by simp)
+        simp only [List.attach_cons, List.filterMap_cons, hi, dite_true, List.map_cons, List.cons.injEq, true_and]
+        have := ih (fun j hj => hvalid j (by simp [hj]))
+        simpa [List.filterMap_map, Function.comp_def] using this
+    rw [hmap]
+    rfl
+
+theorem limits_enc (l : Lim) (b rest : List UInt8) (h : EncLimits l b) :
+    ∃ lm hasMax, limits (b ++ rest) = .ok ((lm, hasMax), rest) ∧
+      (match l with
+       | .noMax n => lm = { min := n, max := 0, shared := false } ∧ hasMax = false
+       | .withMax n m => lm = { min := n, max := m, shared := false } ∧ hasMax = true
+       | .shared n m => lm = { min := n, max := m, shared := true } ∧ hasMax = true) := by
+  cases h with
+  | @noMax n a ha =>
+    refine ⟨_, _, ?_, rfl, rfl⟩
+    unfold limits
+    have hb : byte E.invalidLimitKind ((0x00 :: a) ++ rest) = .ok (0x00, a ++ rest) := rfl
+    rw [bind_eq_of_ok hb, bind_eq_of_ok (u32_uleb _ ha rest)]
+    rfl
+  | @withMax n mx a b2 ha hb2 =>
+    refine ⟨_, _, ?_, rfl, rfl⟩
+    unfold limits
+    have hb : byte E.invalidLimitKind ((0x01 :: (a ++ b2)) ++ rest) = .ok (0x01, a ++ (b2 ++ rest)) := by
+      simp [byte, List.append_assoc]
+    rw [bind_eq_of_ok hb, bind_eq_of_ok (u32_uleb _ ha _)]
+    have hk : Reader.limitKinds.find? (fun r => r.1 = (0x01 : UInt8).toNat) = some (1, true, false) := by decide
+    rw [hk]
+    show (u32 E.invalidLimitMaximum >>= _) (b2 ++ rest) = _
+    rw [bind_eq_of_ok (u32_uleb _ hb2 rest)]
+    rfl
+  | @shared n mx a b2 ha hb2 =>
+    refine ⟨_, _, ?_, rfl, rfl⟩
+    unfold limits
+    have hb : byte E.invalidLimitKind ((0x03 :: (a ++ b2)) ++ rest) = .ok (0x03, a ++ (b2 ++ rest)) := by
+      simp [byte, List.append_assoc]
+    rw [bind_eq_of_ok hb, bind_eq_of_ok (u32_uleb _ ha _)]
+    have hk : Reader.limitKinds.find? (fun r => r.1 = (0x03 : UInt8).toNat) = some (3, true, true) := by decide
+    rw [hk]
+    show (u32 E.invalidLimitMaximum >>= _) (b2 ++ rest) = _
+    rw [bind_eq_of_ok (u32_uleb _ hb2 rest)]
+    rfl
+
+theorem memoryType_enc (l : Lim) (b rest : List UInt8) (h : EncLimits l b) :
+    memoryType (b ++ rest) = .ok (absMemLimits l, rest) := by
+  obtain ⟨lm, hm, hl, hcase⟩ := limits_enc l b rest h
+  unfold memoryType
+  rw [bind_eq_of_ok hl]
+  have hrule : Reader.memoryMaxRule = "noMaxOrTooLarge" := rfl
+  cases l with
+  | noMax n => obtain ⟨rfl, rfl⟩ := hcase; rfl
+  | withMax n m =>
+    obtain ⟨rfl, rfl⟩ := hcase
+    show Res.ok (_, rest) = _
+    simp only [useDefaultMax, hrule, absMemLimits, Bool.not_true, Bool.false_or]
+    by_cases hc : Reader.memoryDefaultMax < m <;> simp [hc]
+  | shared n m =>
+    obtain ⟨rfl, rfl⟩ := hcase
+    show Res.ok (_, rest) = _
+    simp only [useDefaultMax, hrule, absMemLimits, Bool.not_true, Bool.false_or]
+    by_cases hc : Reader.memoryDefaultMax < m <;> simp [hc]
+
+theorem tableType_enc (l : Lim) (b rest : List UInt8) (h : EncTableType l b) :
+    tableType (b ++ rest) = .ok (absTableLimits l, rest) := by
+  cases h with
+  | @mk b' hl' =>
+    obtain ⟨lm, hm, hl, hcase⟩ := limits_enc l b' rest hl'
+    unfold tableType
+    have hb : byte E.invalidTableSectionTableType ((0x70 :: b') ++ rest) = .ok (0x70, b' ++ rest) := rfl
+    rw [bind_eq_of_ok hb, ite_run, if_neg (by decide), bind_eq_of_ok hl]
+    cases l with
+    | noMax n => obtain ⟨rfl, rfl⟩ := hcase; rfl
+    | withMax n m => obtain ⟨rfl, rfl⟩ := hcase; rfl
+    | shared n m => obtain ⟨rfl, rfl⟩ := hcase; rfl
+
+/-- memory section: limits kinds 0x00 / 0x01 / 0x03 (shared), default and clamped maxima -/
+theorem memorySection_roundtrip (m : RawModule) (ls : List Lim) (payload rest : List UInt8)
+    (h : EncVector EncLimits ls payload) :
+    memorySection m (payload ++ rest) = .ok ({ m with memories := ls.map absMemLimits }, rest) := by
+  cases h with
+  | @mk c body hc hb =>
+    unfold memorySection
+    rw [List.append_assoc, bind_eq_of_ok (u32_uleb _ hc _),
+      bind_eq_of_ok (vec_enc (fun a b rest h => memoryType_enc a b rest h) hb rest)]
+    rfl
+
+/-- table section -/
+theorem tableSection_roundtrip (m : RawModule) (ls : List Lim) (payload rest : List UInt8)
+    (h : EncVector EncTableType ls payload) :
+    tableSection m (payload ++ rest) = .ok ({ m with tables := ls.map absTableLimits }, rest) := by
+  cases h with
+  | @mk c body hc hb =>
+    unfold tableSection
+    rw [List.append_assoc, bind_eq_of_ok (u32_uleb _ hc _),
+      bind_eq_of_ok (vec_enc (fun a b rest h => tableType_enc a b rest h) hb rest)]
+    rfl
+
+/-- start section and data-count section -/
+theorem startSection_roundtrip (m : RawModule) (i : Nat) (payload rest : List UInt8) (h : ULeb 32 i payload) :
+    startSection m (payload ++ rest) = .ok ({ m with start := some i }, rest) := by
+  unfold startSection
+  rw [bind_eq_of_ok (u32_uleb _ h rest)]
+  rfl
+
+theorem dataCountSection_roundtrip (m : RawModule) (n : Nat) (payload rest : List UInt8) (h : ULeb 32 n payload) :
+    dataCountSection m (payload ++ rest) = .ok (m, rest) := by
+  unfold dataCountSection
+  rw [bind_eq_of_ok (u32_uleb _ h rest)]
+  rfl
+
+/-- **read_encode_roundtrip_partial** — the covered sections in one statement (see the list above). -/
+theorem read_encode_roundtrip_partial (m : RawModule) (rest : List UInt8) :
+    (∀ tys payload, EncVector EncFuncType tys payload →
+      typeSection m (payload ++ rest) = .ok ({ m with types := tys.map absFuncTy }, rest)) ∧
+    (∀ ls payload, EncVector EncLimits ls payload →
+      memorySection m (payload ++ rest) = .ok ({ m with memories := ls.map absMemLimits }, rest)) ∧
+    (∀ ls payload, EncVector EncTableType ls payload →
+      tableSection m (payload ++ rest) = .ok ({ m with tables := ls.map absTableLimits }, rest)) ∧
+    (∀ i payload, ULeb 32 i payload → startSection m (payload ++ rest) = .ok ({ m with start := some i }, rest)) ∧
+    (∀ n payload, ULeb 32 n payload → dataCountSection m (payload ++ rest) = .ok (m, rest)) :=
+  ⟨fun tys p h => typeSection_roundtrip m tys p rest h, fun ls p h => memorySection_roundtrip m ls p rest h,
+   fun ls p h => tableSection_roundtrip m ls p rest h, fun i p h => startSection_roundtrip m i p rest h,
+   fun n p h => dataCountSection_roundtrip m n p rest h⟩
+
+/-! Non-vacuity -/
+set_option maxRecDepth 100000 in
+example : EncVector EncFuncType [{ params := [.i32], results := [] }] [0x81, 0x00, 0x60, 0x01, 0x7F, 0x00] :=
+  EncVector.mk (as := [_]) (c := [0x81, 0x00]) (body := [0x60, 0x01, 0x7F, 0x00])
+    (ULeb.more (m := 0) 0x81 (by decide) (by decide) (ULeb.last 0x00 (by decide) (by decide) (by decide)))
+    (EncSeq.cons (b := [0x60, 0x01, 0x7F, 0x00]) (bs := [])
+      (EncFuncType.mk (p := [0x01, 0x7F]) (r := [0x00])
+        (EncVector.mk (as := [VT.i32]) (c := [0x01]) (body := [0x7F]) (ULeb.last 0x01 (by decide) (by decide) (by decide))
+          (EncSeq.cons (b := [0x7F]) (bs := []) rfl EncSeq.nil))
+        (EncVector.mk (as := []) (c := [0x00]) (body := []) (ULeb.last 0x00 (by decide) (by decide) (by decide)) EncSeq.nil))
+      EncSeq.nil)
 
 end W2c2Verif.Props.C08
